@@ -10,6 +10,9 @@ Case (one line):  <gens>|<steps>
            u<v>   with ctx.updated(A(v)):                 c     close the innermost open block (rest closed at the end)
            s<g>   async for x in ctx.stream(gen_g): yield x      (only g > own index; otherwise a no-op)
            f / F  raise Boom / BaseBoom                   q     await sleep(0)
+           S      ctx.spawn(feeder): a task of the source that waits until the body lets it go (before the body closes a block
+                  of its own, and at its normal end); a no-op for the model.  Directed cases only (one stream at a time: with
+                  interleaved streams `ctx.spawn` in a body picks up whichever stream's group is current - known-finding territory)
  steps ::= step (" " step)*    step ::= <task>:<op>       executed in this order, one at a time, loop run to quiescence
  op    ::= a<v> | w<v> | u<v>   enter `async with ctx.scope("s<step>", A(v))` / `with ctx.scope` / `with ctx.updated`
                                 (v = 0: no state supplied)
@@ -237,6 +240,14 @@ class Run:
         async def body(sid):
             run.note_group(f"g{g}.{sid}")
             stack = []
+            feeders = []
+
+            def release_feeders():
+                while feeders:
+                    f_ = feeders.pop()
+                    if not f_.done():
+                        f_.set_result(None)
+
             try:
                 for ins in instrs:
                     k, arg = ins[0], num(ins[1:])
@@ -261,6 +272,7 @@ class Run:
                         cm.__enter__()
                         stack.append(("s", cm))
                     elif k == "c":
+                        release_feeders()
                         if stack:
                             kind, cm = stack.pop()
                             if kind == "a":
@@ -277,6 +289,18 @@ class Run:
                         raise BaseBoom("body")
                     elif k == "q":
                         await asyncio.sleep(0)
+                    elif k == "S":
+                        # a feeder task of the source, spawned into whatever task group is current for the body; it waits until
+                        # the body lets it go (before closing a block of its own / at its normal end) - when the stream is closed
+                        # or fails while the feeder still waits, leaving the scope has to cancel it, not wait for it
+                        gate = asyncio.get_running_loop().create_future()
+                        feeders.append(gate)
+
+                        async def feeder(gate=gate):
+                            await gate
+
+                        ctx.spawn(feeder)
+                release_feeders()
                 while stack:  # blocks still open at the end of the body are closed there
                     kind, cm = stack.pop()
                     if kind == "a":
@@ -1282,6 +1306,15 @@ def corpus():
         # further manifestations
         "y1,y2|0:a1 0:m0g0 0:n0 0:a2 0:n0 0:n0 0:p 0:x 0:p 0:x 0:p",               # stream ends in another nesting
         "r5,y1,r6,y2|0:a1 0:m0g0 0:n0 0:a2 0:n0 0:n0 0:x 0:x",                      # record lands in the consumer's scope
+        "S,y1,y2|0:a1 0:m0g0 0:n0 0:p 0:c0 0:p 0:x 0:p",                            # closed while a feeder task of the source waits
+        "S,y1,f|0:a1 0:m0g0 0:n0 0:n0 0:p 0:x 0:p",                                  # the source fails while its feeder waits
+        "S,y1,y2|0:a1 0:m0g0 0:n0 0:n0 0:n0 0:p 0:x 0:p",                            # exhausted: the feeder was let go
+        "y1,S,y2,S,y3|0:a1 0:m0g0 0:n0 0:n0 0:c0 0:p 0:x 0:p",
+        "O5,S,y1,c,y2|0:a1 0:m0g0 0:n0 0:c0 0:p 0:x 0:p",                            # the feeder belongs to a scope of the body's own
+        "O5,S,y1,c,y2|0:a1 0:m0g0 0:n0 0:n0 0:n0 0:p 0:x 0:p",
+        "S,y1,F|0:a1 0:m0g0 0:n0 0:n0 0:p 0:x 0:p",
+        "S,y1,y2|0:m0g0 0:n0 0:c0 0:p",                                              # no scope around the consumer
+        "S,y1,y2|0:a1 0:t1 1:m0g0 1:n0 1:c0 1:p 0:x 0:p",                            # consumed and closed by a child task
         "y1,y2|0:a1 0:m0g0 0:c0 0:p 0:x 0:p",                                        # never started, closed
         "y1,y2|0:a1 0:m0g0 0:z0 0:p 0:x 0:p",                                        # never started, dropped
         "y1,s1,y4;y2,y3|0:a1 0:m0g0 0:n0 0:n0 0:p 0:c0 0:p 0:x 0:p",                # closed inside a nested stream
